@@ -12,17 +12,19 @@ text-mode line iteration with `newline=""`, the `csv.reader` automaton with its 
 and its round trip is proved for ALL grids (`csv_read_write`, `csv_reader_grammar`,
 `csv_file_roundtrip`); the model of the library is tied to the real `csv` module on every run.
 
-JSON string literals (`Rpft/JsonText.lean`: `encode_basestring` with `ensure_ascii=False`, the strict
-`scanstring`) round-trip for every string (`json_string_roundtrip`); the JSON document structure does not
-belong to the model.
+The JSON byte format is inside the model too (`Rpft/JsonText.lean`: `json.dumps(…, ensure_ascii=False,
+indent=2)` and `json.loads` for strings / arrays / objects; `Rpft/Sheets.lean`: the `book` value of
+`to_json`, text-mode reading, `JSONSheetReader`'s loop): `json_string_roundtrip`,
+`json_document_roundtrip`, `json_file_roundtrip`.
 
-What is NOT proved (`C14_full` below): that the XLSX and JSON byte formats (openpyxl, `json`)
-deliver the written grid.  That part is library code; it is exercised on every run by the harness
+What is NOT proved (`C14_full` below): that the XLSX byte format (openpyxl: zip + XML) delivers the
+written grid.  That part is library code; it is exercised on every run by the harness
 (trusted base §3.4), not modelled.
 -/
 import Rpft.Lemmas.Sheets
 import Rpft.Lemmas.Csv
 import Rpft.Lemmas.JsonText
+import Rpft.Lemmas.JsonBook
 import Rpft.Gen.Tables
 set_option linter.unusedSimpArgs false
 set_option linter.unusedVariables false
@@ -708,33 +710,108 @@ theorem convert_then_compile {β : Type} (compile : Workbook → β) (w : Workbo
 example : Good ⟨"s".toList, ["a".toList, "b".toList], [["1".toList, [] ], [[], "0".toList]]⟩ :=
   ⟨by decide, by decide, by decide, by decide, by decide⟩
 
-/-- The full statement of C14, kept visible: for EVERY byte-level writer/reader pair of the XLSX and
-JSON formats that is faithful on grids (`xlsxBytes`, `jsonBytes` deliver what was written), the
-three readers agree on `Good` sheets whose cells fit the CSV reader's field limit.  The CSV leg has
-no premise any more: it goes through the modelled bytes (`exportCsvBytes` / `loadCsv`).  The two
-remaining faithfulness premises are exactly the part that is library code; they are exercised by
-the harness on every run, not proved. -/
-def C14_full : Prop :=
-  ∀ (Bytes : Type)
-    (writeXlsx : Sheet → Bytes) (parseXlsx : Bytes → XGrid)
-    (writeJson : JContent → Bytes) (parseJson : Bytes → JContent),
-    (∀ s, parseXlsx (writeXlsx s) = toXlsxGrid s) →
-    (∀ c, parseJson (writeJson c) = c) →
-    ∀ s, Good s → CellsFit s →
-      loadCsv s.name (exportCsvBytes s) = .ok s ∧
-      (xlsxSanitize (parseXlsx (writeXlsx s))).map (fun t => t.toSheet? s.name) = .ok (some s) ∧
-      readJson s.name (parseJson (writeJson (toJson s))) = .ok s
+/-! ### JSON, the byte format: `to_json` → UTF-8 → file → `load_json` → `JSONSheetReader` -/
 
-/-- `C14_full` holds *relative to* the two library premises it still names (XLSX, JSON); the CSV
-byte format is proved (`csv_file_roundtrip`).  Hence the claim stays PARTIAL. -/
-theorem c14_partial : C14_full := by
-  intro Bytes wx px wj pj hx hj s g hfit
-  rw [hx, hj]
-  exact ⟨csv_file_roundtrip s g.rect g.headers.1 hfit, (formats_agree s g).2⟩
+section JsonBytes
+open Rpft.JsonText
+
+/-- **JSON document round trip**: `json.loads(json.dumps(v, ensure_ascii=False, indent=2)) = v` for
+every value made of strings, arrays and objects whose keys are distinct (any nesting, any text). -/
+theorem json_document_roundtrip (v : JV) (huk : ukV v) : loads (dumps v) = .ok v :=
+  loads_dumps v huk
+
+def vDemo : JV :=
+  .obj (.cons "k\"1".toList (.arr (.cons (.str "a\nb".toList) (.cons (.obj .nil) (.cons (.arr .nil) .nil))))
+    (.cons "é".toList (.obj (.cons [] (.str [] ) .nil)) .nil))
+
+example : ukV vDemo := by
+  simp only [vDemo, ukV, ukVs, ukMs, jmKeys]
+  exact ⟨by decide, ⟨⟨trivial, ⟨by decide, trivial⟩, trivial, trivial⟩, ⟨by decide, trivial, trivial⟩, trivial⟩⟩
+
+example : dumps vDemo = "{\n  \"k\\\"1\": [\n    \"a\\nb\",\n    {},\n    []\n  ],\n  \"é\": {\n    \"\": \"\"\n  }\n}".toList ∧
+    loads (dumps vDemo) = .ok vDemo := by decide +kernel
+
+/-- the distinct-keys hypothesis is forced (and is what a Python dict guarantees): a repeated key
+keeps its first position and its last value -/
+theorem needs_unique_keys :
+    loads (dumps (.obj (.cons "a".toList (.str "1".toList) (.cons "b".toList (.str "2".toList)
+        (.cons "a".toList (.str "3".toList) .nil)))))
+      = .ok (.obj (.cons "a".toList (.str "3".toList) (.cons "b".toList (.str "2".toList) .nil))) := by
+  decide +kernel
+
+/-- **a workbook through a JSON file**: `to_json(reader)` written as UTF-8 (`rpft convert`) and read
+back by `JSONSheetReader` (`load_json` in text mode + `table.dict = content`) is the same workbook —
+sheet names, order, headers, every cell — for rectangular sheets with distinct headers and at least
+one row each (the hypotheses of `json_roundtrip`; the sheet names are the keys of a dict). -/
+theorem json_file_roundtrip (w : Workbook) (hn : (w.map Sheet.name).Nodup)
+    (h : ∀ s ∈ w, Rect s ∧ s.headers.Nodup ∧ s.rows ≠ []) :
+    loadJson (toJsonBytes w) = .ok w := by
+  have huk : ukV (bookJV w) := ukV_book w hn (fun s hs => ⟨(h s hs).1, (h s hs).2.1⟩)
+  have hsheets := sheetsOfMembers_book w
+    (fun s hs => json_roundtrip s (h s hs).1 (h s hs).2.1 (h s hs).2.2)
+  have hne : ("meta".toList = "sheets".toList) = False := by decide
+  unfold loadJson toJsonBytes
+  rw [utf8_roundtrip]
+  simp only [toJsonText]
+  rw [universalNewlines_noCR _ (by unfold dumps; exact dumpValue_noCR _ 0)]
+  unfold loadJsonText
+  rw [loads_dumps _ huk]
+  simp only [bookJV, jmLookup, hne, if_false, if_true, hsheets]
 
 example :
-    let s : Sheet := ⟨"s".toList, ["a".toList, "b".toList], [["1".toList, [] ], [[], "0".toList]]⟩
-    Good s ∧ CellsFit s :=
-  ⟨⟨by decide, by decide, by decide, by decide, by decide⟩, by decide⟩
+    let w : Workbook := [⟨"s1".toList, ["a".toList, "b".toList], [["1\r\n2".toList, [] ], [[], "\"".toList]]⟩,
+                         ⟨"s 2".toList, ["x".toList], [[[]]]⟩]
+    (w.map Sheet.name).Nodup ∧ ∀ s ∈ w, Rect s ∧ s.headers.Nodup ∧ s.rows ≠ [] := by decide
+
+/-- texts `to_json` never writes but `JSONSheetReader` must read alike (compact separators, other
+whitespace, other member order, `meta` absent), and what it refuses; a header-only sheet comes back
+without headers (known finding F-C14-b, recorded at the `table.dict` level by `needs_rows`) -/
+theorem json_reader_facts :
+    loadJsonText "{\"sheets\":{\"s\":[{\"a\":\"1\",\"b\":\"\"}]}}".toList
+      = .ok [⟨"s".toList, ["a".toList, "b".toList], [["1".toList, []]]⟩] ∧
+    loadJsonText " {\r\n\t\"sheets\" : { \"s\" : [ [ \"1\" , \"2\" ] ] } , \"meta\" : { } } \n".toList
+      = .ok [⟨"s".toList, [], [["1".toList, "2".toList]]⟩] ∧
+    loadJsonText "{\"sheets\": {\"s\": [{\"a\": \"1\"}, {\"a\": \"2\", \"b\": \"3\"}]}}".toList
+      = .error (.sheet .invalidDimensions) ∧
+    loadJsonText "{\"sheets\": {\"s\": [{\"a\": \"1\"},]}}".toList = .error (.json .expectingValue) ∧
+    loadJsonText "{\"meta\": {}}".toList = .error .shape ∧
+    loadJsonText "{\"sheets\": {\"s\": [{\"a\": 1}]}}".toList = .error (.json .unsupported) ∧
+    loadJsonText (toJsonText [wHeaderOnly]) = .ok [⟨"s".toList, [], []⟩] := by decide +kernel
+
+end JsonBytes
+
+/-- The full statement of C14, kept visible: for EVERY byte-level writer/reader pair of the XLSX
+format that is faithful on grids (`xlsxBytes` delivers what was written), the three readers agree on
+workbooks of `Good` sheets with distinct names whose cells fit the CSV reader's field limit.  The CSV
+and the JSON legs have no premise any more: they go through the modelled bytes (`exportCsvBytes` /
+`loadCsv`, `toJsonBytes` / `loadJson`).  The remaining faithfulness premise (openpyxl: zip + XML) is
+exactly the part that is library code; it is exercised by the harness on every run, not proved. -/
+def C14_full : Prop :=
+  ∀ (Bytes : Type) (writeXlsx : Sheet → Bytes) (parseXlsx : Bytes → XGrid),
+    (∀ s, parseXlsx (writeXlsx s) = toXlsxGrid s) →
+    ∀ w : Workbook, (w.map Sheet.name).Nodup → (∀ s ∈ w, Good s ∧ CellsFit s) →
+      (∀ s ∈ w, loadCsv s.name (exportCsvBytes s) = .ok s ∧
+        (xlsxSanitize (parseXlsx (writeXlsx s))).map (fun t => t.toSheet? s.name) = .ok (some s)) ∧
+      loadJson (toJsonBytes w) = .ok w
+
+/-- `C14_full` holds *relative to* the one library premise it still names (XLSX); the CSV and JSON
+byte formats are proved (`csv_file_roundtrip`, `json_file_roundtrip`).  Hence the claim stays
+PARTIAL. -/
+theorem c14_partial : C14_full := by
+  intro Bytes wx px hx w hn hw
+  refine ⟨fun s hs => ?_, json_file_roundtrip w hn
+    (fun s hs => ⟨(hw s hs).1.rect, (hw s hs).1.nodup, (hw s hs).1.rows⟩)⟩
+  rw [hx]
+  exact ⟨csv_file_roundtrip s (hw s hs).1.rect (hw s hs).1.headers.1 (hw s hs).2,
+    (formats_agree s (hw s hs).1).2.1⟩
+
+example :
+    let w : Workbook := [⟨"s".toList, ["a".toList, "b".toList], [["1".toList, [] ], [[], "0".toList]]⟩]
+    (w.map Sheet.name).Nodup ∧ ∀ s ∈ w, Good s ∧ CellsFit s := by
+  refine ⟨by decide, ?_⟩
+  intro s hs
+  simp only [List.mem_singleton] at hs
+  subst hs
+  exact ⟨⟨by decide, by decide, by decide, by decide, by decide⟩, by decide⟩
 
 end Rpft.Props.C14
